@@ -33,6 +33,7 @@ Inductive tgt :=
 
 Inductive ekind :=
 | KRebind                                 (* target.a = <new value> *)
+| KRebindUnset                            (* the same, guarded by `if target.a is None`: only an unset attribute is written *)
 | KInPlace                                (* target.a.append(...) / += on a list / .add / [i] = ... *)
 | KNested (b : attr).                     (* target.a[-1].b mutated: over-approximated as a write to target.a's cell *)
 
@@ -62,6 +63,7 @@ Fixpoint mem_str (a : string) (l : list string) : bool :=
 Definition eff_safe (recopy : list attr) (e : eff) : bool :=
   match etgt e, ekd e with
   | TSelf, KRebind => true
+  | TSelf, KRebindUnset => true
   | TSelf, KInPlace => mem_str (eattr e) recopy
   | _, _ => false
   end.
@@ -95,7 +97,7 @@ Definition tgt_eqb (a b : tgt) : bool :=
   end.
 Definition ekind_eqb (a b : ekind) : bool :=
   match a, b with
-  | KRebind, KRebind | KInPlace, KInPlace => true
+  | KRebind, KRebind | KInPlace, KInPlace | KRebindUnset, KRebindUnset => true
   | KNested x, KNested y => String.eqb x y
   | _, _ => false
   end.
@@ -155,6 +157,13 @@ Definition deref (w : world) (o : nat) (a : attr) : option nat :=
   | _ => None
   end.
 
+(* the attribute currently holds None *)
+Definition attr_unset (w : world) (o : nat) (a : attr) : bool :=
+  match read_attr w o a with
+  | Some (mkCell _ [IAtom "None"]) => true
+  | _ => false
+  end.
+
 (* getattr(self, "immutable", True) is falsy: the attribute exists and holds False *)
 Definition immutable_false (w : world) (o : nat) : bool :=
   match read_attr w o "immutable" with
@@ -207,6 +216,9 @@ Definition run_eff (w : world) (self : nat) (args : list (string * item)) (e : e
   | Some o =>
       match ekd e with
       | KRebind => let (w1, k) := alloc_cell w (snd ch) in set_attr w1 o (eattr e) k
+      | KRebindUnset =>
+          if attr_unset w o (eattr e) then let (w1, k) := alloc_cell w (snd ch) in set_attr w1 o (eattr e) k
+          else None                       (* the guard says this write cannot happen: the step is ill-formed *)
       | KInPlace | KNested _ =>
           match get_attr_cell w o (eattr e) with
           | None => None
